@@ -511,6 +511,15 @@ theorem S_consume (v : Variant) (m : Nat) (tys : List Nat) :
   · exact S_errPeek v 20
   · exact S_pure _
 
+theorem S_swallowAll (m : Nat) (tys : List Nat) : ∀ (k : Nat) (j : Nat) (s : S1),
+    Sim R j s (swallowAll realOps m tys k) (swallowAll (layoutOps Y) m tys k) Any
+  | 0, _, _ => fun _ => trivial
+  | k + 1, j, s => by
+    unfold swallowAll
+    refine S_bind_tok (S_tryConsume m tys) (fun _ _ _ => ?_) (fun _ _ _ _ _ => ?_)
+    · exact S_pure _
+    · exact S_swallowAll m tys k _ _
+
 theorem S_parseID (v : Variant) (m : Nat) :
     Sim R j s (parseID v realOps m) (parseID v (layoutOps Y) m) Any := by
   unfold parseID
